@@ -3306,22 +3306,28 @@ func (p *Posix) DeleteObject(ctx context.Context, input *s3.DeleteObjectInput) (
 				}
 			}
 
-			// Mark the object as a delete marker
-			err = p.meta.StoreAttribute(nil, bucket, object, deleteMarkerKey, []byte{})
-			if err != nil {
-				return nil, fmt.Errorf("set delete marker: %w", err)
-			}
-			verifhook.At("posix.deleteobject.marker.between")
-
 			versionId := nullVersionId
 			if p.isBucketVersioningEnabled(vStatus) {
-				// Generate & set a unique versionId for the delete marker
+				// Generate & set a unique versionId for the delete marker.
+				// It is set before the object is marked: a delete marker
+				// that still carried the id of the archived version would
+				// hide that version (interrupted here, the object stays
+				// readable, under the new id, next to its archived version)
 				versionId = ulid.Make().String()
 				err = p.meta.StoreAttribute(nil, bucket, object, versionIdKey, []byte(versionId))
 				if err != nil {
 					return nil, fmt.Errorf("set versionId: %w", err)
 				}
-			} else {
+			}
+			verifhook.At("posix.deleteobject.marker.between")
+
+			// Mark the object as a delete marker
+			err = p.meta.StoreAttribute(nil, bucket, object, deleteMarkerKey, []byte{})
+			if err != nil {
+				return nil, fmt.Errorf("set delete marker: %w", err)
+			}
+
+			if !p.isBucketVersioningEnabled(vStatus) {
 				// the delete marker becomes the null version: it replaces
 				// a null version kept in the versioning directory
 				err = p.deleteNullVersionIdObject(bucket, object)
